@@ -1379,7 +1379,16 @@ class Epoch(object):
             if year >= 1972:
                 deltasec += 32.184  # Difference between TT and TAI
                 deltasec += 10.0  # Difference between UTC and TAI in 1972
-                deltasec += Epoch.leap_seconds(year, month)
+                leaps = Epoch.leap_seconds(year, month)
+                # The first TT seconds of a month belong to the previous UTC
+                # month, which may have a smaller leap second count
+                pyear = year if month > 1 else year - 1
+                pmonth = month - 1 if month > 1 else 12
+                pleaps = Epoch.leap_seconds(pyear, pmonth)
+                if (pleaps != leaps
+                        and day - (deltasec + pleaps) / DAY2SEC < 1.0):
+                    leaps = pleaps
+                deltasec += leaps
         else:  # Correction is NOT automatic
             if leap_seconds != 0.0:  # We apply provided leap seconds
                 if year >= 1972:
